@@ -192,8 +192,21 @@ class CoderState(object):
         self.back_reference_boundary = len(self.decoded_descriptors)
 
     def recall_bitmap(self):
+        if self.bitmapped_descriptors is None:
+            raise PyBufrKitError('No bitmap is defined for recall')
         self.next_bitmapped_descriptor = functools.partial(next, iter(self.bitmapped_descriptors))
         return self.bitmap
+
+    def get_next_bitmapped_descriptor(self):
+        """
+        The next (index, descriptor) pair selected by the bitmap in force.
+        """
+        if self.next_bitmapped_descriptor is None:
+            raise PyBufrKitError('No bitmap is defined')
+        try:
+            return self.next_bitmapped_descriptor()
+        except StopIteration:
+            raise PyBufrKitError('More bitmapped values than zero bits in the bitmap')
 
     def cancel_bitmap(self):
         self.bitmap = None
@@ -207,7 +220,7 @@ class CoderState(object):
         """
         Must be called before the descriptor is processed
         """
-        idx_descriptor, _ = self.next_bitmapped_descriptor()
+        idx_descriptor, _ = self.get_next_bitmapped_descriptor()
         self.bitmap_links[len(self.decoded_descriptors)] = idx_descriptor
 
     def get_value_for_delayed_replication_factor(self, idx):
@@ -652,7 +665,7 @@ class Coder(object):
         uncompressed and compressed data.
         """
 
-        idx_descriptor, bitmapped_descriptor = state.next_bitmapped_descriptor()
+        idx_descriptor, bitmapped_descriptor = state.get_next_bitmapped_descriptor()
         state.bitmap_links[len(state.decoded_descriptors)] = idx_descriptor
 
         # difference statistical values marker has different refval and nbits values
